@@ -169,33 +169,74 @@ Print Assumptions C04_offset_cursor_def_token.
 
 (* ---- Markdown, general form (End events carry the range of their whole element, so range starts DO go
    backwards): when every range starts on a char boundary (monitored) the traversed_bytes/traversed_chars
-   bookkeeping never panics and each event is handled at the TRUE char offset of the furthest range start
-   seen so far.  (That every Text/Code/Html/break event starts at or after everything before it — so that
+   bookkeeping never panics and each event is handled — or skipped by the covered_until guard of 8b26ba4, which is
+   part of both loops — at the TRUE char offset of the furthest range start seen so far.  (That every Text/Code/Html/break event starts at or after everything before it — so that
    "furthest so far" is its own start — is pulldown-cmark's contract: monitor md_event_before_cursor.) *)
-Theorem C04_md_offsets_running_max : forall lex ilt src bs evs tb tc stack,
+Theorem C04_md_offsets_running_max : forall lex ilt src bs evs tb tc cu lastend stack,
   tc = char_index bs tb -> is_boundary bs tb = true ->
   Forall (fun e => is_boundary bs (snd e) = true) evs ->
-  md_loop lex ilt src bs evs tb tc stack = md_loop_max lex ilt src bs evs tb stack.
+  md_loop lex ilt src bs evs tb tc cu lastend stack = md_loop_max lex ilt src bs evs tb cu lastend stack.
 Proof. exact md_offsets_max. Qed.
-Check C04_md_offsets_running_max : forall lex ilt src bs evs tb tc stack,
+Check C04_md_offsets_running_max : forall lex ilt src bs evs tb tc cu lastend stack,
   tc = char_index bs tb -> is_boundary bs tb = true ->
   Forall (fun e => is_boundary bs (snd e) = true) evs ->
-  md_loop lex ilt src bs evs tb tc stack = md_loop_max lex ilt src bs evs tb stack.
+  md_loop lex ilt src bs evs tb tc cu lastend stack = md_loop_max lex ilt src bs evs tb cu lastend stack.
 Print Assumptions C04_md_offsets_running_max.
 
 (* ---- Markdown, for a stretch of events whose ranges start in non-decreasing order (e.g. no End event
    in between) the traversed_bytes/traversed_chars bookkeeping never panics and the whole loop equals
    the loop in which every event is handled at the TRUE char offset of its range start *)
-Theorem C04_md_offsets : forall lex ilt src bs evs tb tc stack,
+Theorem C04_md_offsets : forall lex ilt src bs evs tb tc cu lastend stack,
   tc = char_index bs tb -> is_boundary bs tb = true ->
   starts_from tb (map snd evs) -> Forall (fun e => is_boundary bs (snd e) = true) evs ->
-  md_loop lex ilt src bs evs tb tc stack = md_loop_abs lex ilt src bs evs stack.
+  md_loop lex ilt src bs evs tb tc cu lastend stack = md_loop_abs lex ilt src bs evs cu lastend stack.
 Proof. exact md_offsets. Qed.
-Check C04_md_offsets : forall lex ilt src bs evs tb tc stack,
+Check C04_md_offsets : forall lex ilt src bs evs tb tc cu lastend stack,
   tc = char_index bs tb -> is_boundary bs tb = true ->
   starts_from tb (map snd evs) -> Forall (fun e => is_boundary bs (snd e) = true) evs ->
-  md_loop lex ilt src bs evs tb tc stack = md_loop_abs lex ilt src bs evs stack.
+  md_loop lex ilt src bs evs tb tc cu lastend stack = md_loop_abs lex ilt src bs evs cu lastend stack.
 Print Assumptions C04_md_offsets.
+
+(* ---- the covered_until guard (8b26ba4; FC02b) and the empty Code / Math body (a37d1cc; FC02a), as the code is NOW:
+   from any loop state (cu = covered_until, lastend = end of tokens.last()) every token of the output starts at or
+   after max(cu, lastend), or is a zero-width ParagraphBreak / Newline(2) of the unguarded Start(List) / End arms.  As
+   the statement holds from every intermediate state, no Text / Code / Math / Html / break event that repeats source
+   text lying before the end of the token pushed last makes a second token over it. *)
+Theorem C04_md_guard_covered : forall lex ilt src bs evs tb cu lastend stack toks,
+  md_loop_max lex ilt src bs evs tb cu lastend stack = Ok toks ->
+  Forall (fun t => md_structural t \/ md_cu_top cu lastend <= sstart (tspan t)) toks.
+Proof. exact md_guard_covered. Qed.
+Check C04_md_guard_covered : forall lex ilt src bs evs tb cu lastend stack toks,
+  md_loop_max lex ilt src bs evs tb cu lastend stack = Ok toks ->
+  Forall (fun t => md_structural t \/ md_cu_top cu lastend <= sstart (tspan t)) toks.
+Print Assumptions C04_md_guard_covered.
+
+Theorem C04_md_empty_code_silent : forall lex ilt src bs rs stack tc,
+  md_event_step lex ilt src bs rs stack tc (ECodeLike 0) = Ok ([], stack).
+Proof. exact md_empty_code_silent. Qed.
+Check C04_md_empty_code_silent : forall lex ilt src bs rs stack tc,
+  md_event_step lex ilt src bs rs stack tc (ECodeLike 0) = Ok ([], stack).
+Print Assumptions C04_md_empty_code_silent.
+
+(* ---- FC02c (REFUTED; found in phase 4 by C04's monitor md_event_before_cursor and independently by C02): with every range on char boundaries and every Text range ordered the loop of
+   Markdown::parse still panics — concrete witness: pulldown-cmark's event stream of `[[a|]]river stone $$$$` (the replayed
+   Text("river stone ") behind the wikilink is not skipped by the guard because the empty `$$$$` moved the cursor without
+   pushing a token, and `source[tc .. tc + 12]` ends behind the file).  Replayed on the implementation: corpus/C04/edge.json,
+   known finding FC02c (fragments FC02c-C04-panic and FC02c-C04-order), fixes/FC02c-markdown-backward-events.diff. *)
+Theorem C04_md_loop_total_refuted :
+  exists (lex : text -> list tok) ilt src evs,
+    Forall valid_char src /\
+    Forall (fun e => is_boundary (encode src) (snd e) = true) evs /\
+    md_text_ranges_ok (encode src) evs /\
+    md_loop lex ilt src (encode src) evs 0 0 0 None [] = Panic PIndex.
+Proof. exact md_loop_total_refuted. Qed.
+Check C04_md_loop_total_refuted :
+  exists (lex : text -> list tok) ilt src evs,
+    Forall valid_char src /\
+    Forall (fun e => is_boundary (encode src) (snd e) = true) evs /\
+    md_text_ranges_ok (encode src) evs /\
+    md_loop lex ilt src (encode src) evs 0 0 0 None [] = Panic PIndex.
+Print Assumptions C04_md_loop_total_refuted.
 
 (* ---- a Text event yields Unlintable, nothing, or the lexer's tokens of exactly source[tc .. tc+n] shifted by tc *)
 Theorem C04_md_text_chunk : forall lex ilt src stack tc n out,
@@ -707,12 +748,15 @@ Example C04_md_nonvacuous :
   let evs := [(EStart TParagraph, 0); (EText 2 3, 0); (ECodeLike 1, 3); (EText 2 8, 6)] in
   let lex := fun c : text => [mktok (mkspan 0 (length c)) 5%N] in
   starts_from 0 (map snd evs) /\ Forall (fun e => is_boundary (encode src) (snd e) = true) evs /\
-  md_loop lex false src (encode src) evs 0 0 []
+  md_loop lex false src (encode src) evs 0 0 0 None []
   = Ok [mktok (mkspan 0 2) 5%N; mktok (mkspan 2 3) K_UNLINTABLE; mktok (mkspan 5 7) 5%N] /\
   (* a synthesised Text (3 chars claimed, empty source range at byte 8): nothing is pushed; a text longer than
      its range [6,8) is clamped to the 2 chars the range holds *)
   md_event_step lex false src (encode src) 8 [TParagraph] 7 (EText 3 8) = Ok ([], [TParagraph]) /\
-  md_event_step lex false src (encode src) 6 [TParagraph] 5 (EText 9 8) = Ok ([mktok (mkspan 5 7) 5%N], [TParagraph]).
+  md_event_step lex false src (encode src) 6 [TParagraph] 5 (EText 9 8) = Ok ([mktok (mkspan 5 7) 5%N], [TParagraph]) /\
+  (* the guard: a second Text event over the bytes [0,3) already tokenised is skipped, an empty Code body pushes nothing *)
+  md_loop lex false src (encode src) [(EStart TParagraph, 0); (EText 2 3, 0); (EText 2 3, 0); (ECodeLike 0, 3); (EText 2 8, 6)] 0 0 0 None []
+  = Ok [mktok (mkspan 0 2) 5%N; mktok (mkspan 5 7) 5%N].
 Proof. cbv zeta. split; [cbn; lia|]. split; [repeat constructor|vm_compute; repeat split; reflexivity]. Qed.
 
 (* "/// river" and a two-line block through Unit with an inner parser returning its whole input *)
